@@ -43,6 +43,7 @@ func checkC04(r *Result) {
 	r.rule("PAYOUT-PAIR", "a tip payout moves the query's recorded amount and the query is removed on the same path")
 	r.rule("AMOUNT-ONCE", "an unpaid amount is never copied to a second open query")
 	r.rule("WITHDRAW-PAIR", "a credit withdrawal moves trunc(credit) and stores credit - trunc(credit) under the same key")
+	r.rule("CLAIM-SHARES", "the voter-reward shares paid out of the dispute account use numerators and denominators taken at the same block")
 	r.rule("BRIDGE-EMPTY", "the bridge account pays out or burns within the call everything it received or minted")
 
 	tm := NewTermer()
@@ -519,6 +520,10 @@ func checkC04(r *Result) {
 		}
 		r.check(okP, "BRIDGE-EMPTY", "(x/bridge/keeper.Keeper).ClaimDeposit # every success path that minted paid the remainder out", pos(cd.Pos()), "")
 	}
+	// the dispute account pays voter rewards out of one pot per dispute: the shares add up to at most that pot only
+	// if a claimant's tips and the group total they are divided by are tips at the same height
+	checkTipsBlock(r, "CLAIM-SHARES")
+	r.minCount("CLAIM-SHARES", 3)
 	r.minCount("CENSUS-ESCROW", 13)
 	r.minCount("MOVER-SOURCES", 5)
 	r.minCount("TIP-PAIR", 3)
